@@ -171,6 +171,9 @@ func c14AddOnly(c *Ctx) {
 			}
 		}
 		c.Class("host_" + cls)
+		if c.WantSample("host") && ok && host != nh {
+			c.Sample("host", det)
+		}
 		if host != nh {
 			c.Nontrivial("a|" + strings.Join(accepted, ",") + "|" + host)
 		}
